@@ -772,6 +772,13 @@ class Cache:
                 sql('ROLLBACK')
                 for name in created:
                     _disk_remove(name)
+            elif filename in created:  # pragma: no cover
+                # Nested: what ran so far stays in the open transaction.
+                # Drop the file written for this call unless a row uses it.
+                select = 'SELECT rowid FROM Cache WHERE filename = ?'
+                if not sql(select, (filename,)).fetchall():
+                    created.remove(filename)
+                    _disk_remove(filename)
             raise
         else:
             if begin:
@@ -876,8 +883,8 @@ class Cache:
 
             if rows:
                 ((rowid, old_filename),) = rows
-                cleanup(old_filename)
                 self._row_update(rowid, now, columns)
+                cleanup(old_filename)
             else:
                 self._row_insert(db_key, raw, now, columns)
 
@@ -1080,8 +1087,8 @@ class Cache:
                     cleanup(filename)
                     return False
 
-                cleanup(old_filename)
                 self._row_update(rowid, now, columns)
+                cleanup(old_filename)
             else:
                 self._row_insert(db_key, raw, now, columns)
 
